@@ -231,22 +231,55 @@ def check_idmap(prog: Program, res: Result, fi) -> None:
             else:
                 res.ok("R-IDMAP", inst, fn.loc(calls[0]))
     # sibling agreement of the two id_atom_map constructions
+    def shape(dc):
+        """(key accessor, value accessor, iterable) of {v.K(): v.V() for v in
+        it}, independent of the name of v; None when not of that form."""
+        if not (isinstance(dc, ast.DictComp) and len(dc.generators) == 1
+                and not dc.generators[0].ifs
+                and isinstance(dc.generators[0].target, ast.Name)):
+            return None
+        v = dc.generators[0].target.id
+        def acc(e):
+            if isinstance(e, ast.Call) and not e.args and not e.keywords and \
+                    isinstance(e.func, ast.Attribute) and isinstance(
+                    e.func.value, ast.Name) and e.func.value.id == v:
+                return e.func.attr
+            return None
+        k, val = acc(dc.key), acc(dc.value)
+        if k is None or val is None:
+            return None
+        return (k, val, norm(dc.generators[0].iter))
+
     def maps(fn):
-        out = []
+        out, odd = [], []
         for node in ast.walk(fn.node):
-            if isinstance(node, ast.Assign) and norm(node.targets[0]) == \
-                    "id_atom_map" and isinstance(node.value, ast.DictComp):
-                out.append(norm(node.value, 300))
-        return sorted(out)
-    a, b = maps(fi), maps(prog.fn("rdmol2graph:mol_graph_from_rdmol"))
+            if isinstance(node, ast.Assign):
+                tgt, value = node.targets[0], node.value
+            elif isinstance(node, ast.AnnAssign) and node.value is not None:
+                tgt, value = node.target, node.value
+            else:
+                continue
+            if norm(tgt) != "id_atom_map":
+                continue
+            sh = shape(value)
+            (out if sh else odd).append(sh or norm(value, 120))
+        return sorted(out), odd
+    (a, odd_a), (b, odd_b) = maps(fi), maps(
+        prog.fn("rdmol2graph:mol_graph_from_rdmol"))
     inst = "mol_graph_from_rdmol and smg_from_rdmol build id_atom_map identically"
-    want = sorted(["{atom.GetIdx(): atom.GetAtomMapNum() for atom in rdmol.GetAtoms()}",
-                   "{atom.GetIdx(): atom.GetIdx() for atom in rdmol.GetAtoms()}"])
-    if a == b == want:
+    want = sorted([("GetIdx", "GetAtomMapNum", "rdmol.GetAtoms()"),
+                   ("GetIdx", "GetIdx", "rdmol.GetAtoms()")])
+    if odd_a or odd_b or not a or not b:
+        res.unrecognised("R-IDMAP", inst, fi.loc(),
+                         f"id_atom_map is built by {odd_a + odd_b or 'nothing'}"
+                         ", not by {atom.GetIdx(): atom.<accessor>() for atom "
+                         "in rdmol.GetAtoms()}")
+    elif a == b == want:
         res.ok("R-IDMAP", inst, fi.loc())
     else:
         res.bad("R-IDMAP", "id_atom_map constructions", fi.loc(),
-                f"{inst}: {a} vs {b}", instance=inst)
+                f"{inst}: {a} vs {b} (expected index -> index and index -> "
+                "atom map number over rdmol.GetAtoms())", instance=inst)
 
 
 def check_falsy_and_state(prog: Program, res: Result, fi) -> None:
